@@ -365,7 +365,7 @@ def gen_facade(mods):
 def gen_misc(mods):
     from translate import HEADER, coq_str, const_int, src_of
     lines = [HEADER.format(src="scsi_command.py (init_cdb), scsi.py (attach table), iscsi_device.py (status dispatch)",
-                           extra=" Model.Command Model.Enum")]
+                           extra=" Model.Command Model.Enum Model.Exec")]
     info = {}
     unknown = []
     # ---- SCSICommand.init_cdb: if lo <= opcode.value <= hi: cdb = bytearray(n) | raise ... else: raise
@@ -441,9 +441,174 @@ def gen_misc(mods):
         filt = "(FUnknown \"keys\")"
     lines.append("Definition enum_keys_filter : fexpr := %s.\n" % filt)
     info["enum_keys_filter"] = filt
+    # ---- ISCSIDevice.execute status dispatch, SCSIDevice.execute CheckConditionError handler
+    imod = next(m for m in mods if m.stem == "iscsi_device")
+    dmod = next(m for m in mods if m.stem == "scsi_device")
+    prog, final, iunk = exec_iscsi(imod)
+    handler, hunk = exec_sgio(dmod)
+    unknown += iunk + hunk
+    lines.append("Definition iscsi_status_prog : iscsi_prog := [\n  %s].\n" % ";\n  ".join(
+        "(%s, [%s])" % (coq_str(n), "; ".join(acts)) for n, acts in prog))
+    lines.append("Definition iscsi_final : option exn := %s.\n" % final)
+    lines.append("Definition sgio_cc_handler : list gact := [%s].\n" % "; ".join(handler))
+    info["iscsi_prog"] = [[n, acts] for n, acts in prog]
+    info["sgio_handler"] = handler
     lines.append("Definition unknown_misc : list string := [" + "; ".join(coq_str(u) for u in unknown) + "].\n")
     info["unknown"] = unknown
     return "\n".join(lines), info
+
+
+EXEC_EXN = {"ReservationConflict": "ReservationConflict", "TaskAborted": "TaskAborted", "BusyStatus": "BusyStatus",
+            "TaskSetFull": "TaskSetFull", "ACAActive": "ACAActive", "ConditionsMet": "ConditionsMet",
+            "RuntimeError": "RuntimeError", "ValueError": "ValueError", "OSError": "OSError"}
+
+
+def sense_expr(node, cmdn, taskn, errn):
+    d = dotted(node)
+    if d == cmdn + ".sense":
+        return "XCmdSense"
+    if taskn and d == taskn + ".raw_sense":
+        return "XTaskSense"
+    if errn and d == errn + ".sense":
+        return "XErrSense"
+    return None
+
+
+def exec_acts(stmts, guard, cmdn, taskn, errn, rawn, text, unknown, out):
+    """flatten statements into guarded acts; nested ifs only on en_raw_sense / not cmd.sense, one level"""
+    from translate import coq_str, src_of
+    for s in stmts:
+        if isinstance(s, ast.Pass) or (isinstance(s, ast.Expr) and isinstance(s.value, ast.Constant)):
+            continue
+        # try: <assign> except AttributeError: pass
+        if isinstance(s, ast.Try) and len(s.handlers) == 1 and not s.orelse and not s.finalbody \
+                and isinstance(s.handlers[0].type, ast.Name) and s.handlers[0].type.id == "AttributeError" \
+                and all(isinstance(b, ast.Pass) for b in s.handlers[0].body):
+            exec_acts(s.body, guard, cmdn, taskn, errn, rawn, text, unknown, out)
+            continue
+        if isinstance(s, ast.If) and guard == "GAlways":
+            t = s.test
+            g = None
+            if isinstance(t, ast.Name) and t.id == rawn:
+                g, ge = "GRaw true", "GRaw false"
+            elif isinstance(t, ast.UnaryOp) and isinstance(t.op, ast.Not) and isinstance(t.operand, ast.Name) and t.operand.id == rawn:
+                g, ge = "GRaw false", "GRaw true"
+            elif isinstance(t, ast.UnaryOp) and isinstance(t.op, ast.Not) and dotted(t.operand) == cmdn + ".sense" and not s.orelse:
+                g, ge = "GNoSense", None
+            if g is not None:
+                # a raise/return inside a guarded branch must not let the other branch's acts run afterwards: the flat
+                # encoding is exact because each act re-tests its own guard and guards never change within one execute()
+                # except GNoSense, which we only accept for a single assignment to cmd.sense
+                if g == "GNoSense":
+                    inner = []
+                    exec_acts(s.body, g, cmdn, taskn, errn, rawn, text, unknown, inner)
+                    if len(inner) != 1 or "ASet LCmdSense" not in inner[0]:
+                        unknown.append("execute: " + src_of(s, text))
+                        out.append("(GAlways, AUnknownAct %s)" % coq_str(src_of(s, text)))
+                    else:
+                        out += inner
+                else:
+                    exec_acts(s.body, g, cmdn, taskn, errn, rawn, text, unknown, out)
+                    if s.orelse:
+                        exec_acts(s.orelse, ge, cmdn, taskn, errn, rawn, text, unknown, out)
+                continue
+        if isinstance(s, ast.Assign) and len(s.targets) == 1:
+            dst = dotted(s.targets[0])
+            src = sense_expr(s.value, cmdn, taskn, errn)
+            loc = {cmdn + ".sense": "LCmdSense", cmdn + ".raw_sense_data": "LRaw"}.get(dst)
+            if loc and src:
+                out.append("(%s, ASet %s %s)" % (guard, loc, src))
+                continue
+        if isinstance(s, ast.Return) and s.value is None:
+            out.append("(%s, AReturn)" % guard)
+            continue
+        call = s.exc if isinstance(s, ast.Raise) else (s.value if isinstance(s, ast.Expr) else None)
+        if isinstance(call, ast.Call) and dotted(call.func) == "self.CheckCondition" and len(call.args) == 1 and not call.keywords:
+            src = sense_expr(call.args[0], cmdn, taskn, errn)
+            if src:
+                out.append("(%s, %s %s)" % (guard, "ARaiseCC" if isinstance(s, ast.Raise) else "AConstructCC", src))
+                continue
+        if isinstance(s, ast.Raise) and s.exc is not None:
+            e = s.exc.func if isinstance(s.exc, ast.Call) else s.exc
+            if isinstance(s.exc, ast.Call) and s.exc.args:
+                e = None
+            name = None
+            if isinstance(e, ast.Attribute) and isinstance(e.value, ast.Name) and e.value.id == "self":
+                name = e.attr
+            elif isinstance(e, ast.Name):
+                name = e.id
+            if name in EXEC_EXN:
+                out.append("(%s, ARaise %s)" % (guard, EXEC_EXN[name]))
+                continue
+        unknown.append("execute: " + src_of(s, text))
+        out.append("(%s, AUnknownAct %s)" % (guard, coq_str(src_of(s, text))))
+
+
+def exec_iscsi(mod):
+    from translate import src_of, coq_str
+    unknown, prog, final = [], [], "None"
+    fn = None
+    for node in ast.walk(mod.tree):
+        if isinstance(node, ast.ClassDef) and node.name == "ISCSIDevice":
+            fn = next((m for m in node.body if isinstance(m, ast.FunctionDef) and m.name == "execute"), None)
+    if fn is None or len(fn.args.args) < 3:
+        return [], "None", ["ISCSIDevice.execute not found"]
+    cmdn, rawn = fn.args.args[1].arg, fn.args.args[2].arg
+    body = [s for s in fn.body if not (isinstance(s, ast.Expr) and isinstance(s.value, ast.Constant))]
+    # everything up to and including  self._iscsi.command(...)  is the transfer set-up (C03); find the task variable
+    idx, taskn = None, None
+    for i, s in enumerate(body):
+        if isinstance(s, ast.Expr) and isinstance(s.value, ast.Call) and dotted(s.value.func) == "self._iscsi.command" \
+                and len(s.value.args) >= 2 and isinstance(s.value.args[1], ast.Name):
+            idx, taskn = i, s.value.args[1].id
+    if idx is None:
+        return [], "None", ["ISCSIDevice.execute: no self._iscsi.command(...) call"]
+    for s in body[idx + 1:]:
+        if isinstance(s, ast.If) and not s.orelse and isinstance(s.test, ast.Compare) and len(s.test.ops) == 1 \
+                and isinstance(s.test.ops[0], ast.Eq) and dotted(s.test.left) == taskn + ".status":
+            d = dotted(s.test.comparators[0]) or ""
+            parts = d.split(".")
+            if len(parts) >= 2 and parts[-2] == "SCSI_STATUS":
+                acts = []
+                exec_acts(s.body, "GAlways", cmdn, taskn, None, rawn, mod.text, unknown, acts)
+                prog.append((parts[-1], acts))
+                continue
+        if s is body[-1] and isinstance(s, ast.Raise) and s.exc is not None:
+            e = s.exc.func if isinstance(s.exc, ast.Call) else s.exc
+            name = e.id if isinstance(e, ast.Name) else None
+            if name in EXEC_EXN:
+                final = "(Some %s)" % EXEC_EXN[name]
+                continue
+        if s is body[-1] and isinstance(s, ast.Return) and s.value is None:
+            final = "None"
+            continue
+        unknown.append("ISCSIDevice.execute: " + src_of(s, mod.text))
+        prog.append(("<unknown>", ["(GAlways, AUnknownAct %s)" % coq_str(src_of(s, mod.text))]))
+    return prog, final, unknown
+
+
+def exec_sgio(mod):
+    from translate import src_of, coq_str
+    unknown = []
+    fn = None
+    for node in ast.walk(mod.tree):
+        if isinstance(node, ast.ClassDef) and node.name == "SCSIDevice":
+            fn = next((m for m in node.body if isinstance(m, ast.FunctionDef) and m.name == "execute"), None)
+    if fn is None or len(fn.args.args) < 3:
+        return [], ["SCSIDevice.execute not found"]
+    cmdn, rawn = fn.args.args[1].arg, fn.args.args[2].arg
+    body = [s for s in fn.body if not (isinstance(s, ast.Expr) and isinstance(s.value, ast.Constant))]
+    tries = [s for s in body if isinstance(s, ast.Try) and any(
+        isinstance(b, ast.Expr) and isinstance(b.value, ast.Call) and dotted(b.value.func) == "sgio.execute" for b in s.body)]
+    if len(tries) != 1 or body[-1] is not tries[0]:
+        return ["(GAlways, AUnknownAct \"execute\")"], ["SCSIDevice.execute: expected the function to end with try: sgio.execute(...)"]
+    t = tries[0]
+    if len(t.body) != 1 or t.orelse or t.finalbody or len(t.handlers) != 1 or dotted(t.handlers[0].type) != "sgio.CheckConditionError" \
+            or not t.handlers[0].name:
+        return ["(GAlways, AUnknownAct \"handler\")"], ["SCSIDevice.execute: unrecognised try/except around sgio.execute"]
+    acts = []
+    exec_acts(t.handlers[0].body, "GAlways", cmdn, None, t.handlers[0].name, rawn, mod.text, unknown, acts)
+    return acts, unknown
 
 
 def enum_filter(t, kname, vname, text, unknown):
